@@ -133,6 +133,29 @@ fn case(i: u64, rng: &mut Rng, st: &mut State, full: bool) {
         st.count("skipped.honest_proof_rejected(C01)");
         return;
     }
+    // (0) the same proof under the caller's acceptance policy: it is accepted exactly when the parameters bound into
+    // it satisfy the policy (levels as the library reports them; their values are C18's subject)
+    {
+        let (lc, lp) = stark::security_levels(fd, hs, &honest_proof);
+        let other = winter_air::ProofOptions::new(options.num_queries(), options.blowup_factor(), options.grinding_factor() + 1, options.field_extension(), options.to_fri_options().folding_factor(), options.to_fri_options().remainder_max_degree());
+        let policies: Vec<(String, AcceptableOptions, bool)> = vec![
+            ("min-conjectured=level".into(), AcceptableOptions::MinConjecturedSecurity(lc), true),
+            ("min-conjectured=level+1".into(), AcceptableOptions::MinConjecturedSecurity(lc + 1), false),
+            ("min-proven=level".into(), AcceptableOptions::MinProvenSecurity(lp), true),
+            ("min-proven=level+1".into(), AcceptableOptions::MinProvenSecurity(lp + 1), false),
+            ("option-set-with-the-options".into(), AcceptableOptions::OptionSet(vec![other.clone(), options.clone()]), true),
+            ("option-set-without-the-options".into(), AcceptableOptions::OptionSet(vec![other]), false),
+        ];
+        for (what, pol, want) in policies {
+            let r = stark::verify_proof(fd, hs, &shape, &values, honest_proof.clone(), &pol, false);
+            let got = matches!(r, Ok(Ok(())));
+            if got != want {
+                st.violation(format!("policy:{what}:{}", if got { "accepted" } else { "rejected" }), describe(0, 0, "acceptance policy", format!("conjectured level {lc}, proven level {lp}, result {r:?}")));
+            }
+            st.count("policy.verifications");
+            st.evals += 1;
+        }
+    }
     // (1) every cell (all cells while n*w is small, otherwise boundary cells + a sample)
     let mut cells: Vec<(usize, usize)> = Vec::new();
     if full || n * w <= 160 {
